@@ -30,8 +30,9 @@ func C15(c *Ctx) {
 	r.Rule("C15/R1", "check before post: IsEmpty false, GetOperationByID ok, Equal ok dominate Send and the write-back", 6)
 	r.Rule("C15/R2", "Operation.Equal binds ID, Type and Payload", 4)
 	r.Rule("C15/R3", "attribution: sender overwritten, then signed, stored back, same slice sent", 5)
-	r.Rule("C15/R4", "retirement: delete after post, tombstone first, tombstoned id refused, pool filtered by tombstones", 6)
+	r.Rule("C15/R4", "retirement: delete after post, tombstone first, tombstoned id refused, pool filtered by tombstones; concurrent submissions serialised", 7)
 	r.Rule("C15/R5", "operation id is a function of (round id, payload) only", 1)
+	r.Rule("C15/R7", "the write-back answer (OperationProcessed) is accepted only for a stored reinit operation and is applied to the round the node issued that operation for — Equal does not bind Event, DKGIdentifier or ExtraData of the submitted copy", 2)
 	r.Rule("C15/R6", "file/API round trip: sibling schemas agree, all DTO fields copied, (Form,DTO) pairs bindable, JSON-safe types", 20)
 	c15Execute(c)
 	c15Equal(c)
@@ -42,6 +43,8 @@ func C15(c *Ctx) {
 
 func c15Execute(c *Ctx) {
 	r := c.R
+	c15WriteBackBound(c)
+	c15AnswerSerialised(c)
 	fn := c.Fn("C15/R1", pkgNode, "BaseNodeService", "executeOperation")
 	if fn == nil {
 		return
@@ -544,4 +547,97 @@ func sliceElems(v ssa.Value) []ssa.Value {
 		return nil
 	}
 	return ssax.ArrayElems(a)
+}
+
+
+// c15WriteBackBound: in executeOperation the branch that writes the submitted ExtraData into a round (event
+// operation_processed_successfully, no board post) is taken only when the STORED operation is a reinit operation, and
+// the round it loads and saves is the stored operation's.
+func c15WriteBackBound(c *Ctx) {
+	r := c.R
+	fn := c.Fn("C15/R7", pkgNode, "BaseNodeService", "executeOperation")
+	if fn == nil {
+		return
+	}
+	stored := func(p string) bool { return strings.Contains(p, "GetOperationByID(operation.ID)#0") }
+	var isReinit []ssax.Edge
+	for _, cd := range ssax.Conds(fn) {
+		if cd.Op != token.EQL && cd.Op != token.NEQ {
+			continue
+		}
+		for _, pr := range [][2]ssa.Value{{cd.X, cd.Y}, {cd.Y, cd.X}} {
+			if k, ok := ssax.ConstString(pr[1]); ok && k == "reinit_dkg" && stored(npath(pr[0])) && strings.HasSuffix(npath(pr[0]), ".Type") {
+				e, _ := cd.EdgeWhere(token.EQL)
+				isReinit = append(isReinit, e)
+			}
+		}
+	}
+	var saves, loads []ssa.CallInstruction
+	for _, call := range ssax.Calls(fn, false, func(ci ssa.CallInstruction) bool { o := ssax.CalleeObj(ci); return o != nil && (o.Name() == "SaveFSM" || o.Name() == "GetFSMInstance") }) {
+		if ssax.CalleeObj(call).Name() == "SaveFSM" {
+			saves = append(saves, call)
+		} else {
+			loads = append(loads, call)
+		}
+	}
+	okGate := len(isReinit) > 0 && len(saves) > 0
+	for _, sv := range saves {
+		if ssax.ReachableAvoiding(fn, sv.(ssa.Instruction), isReinit, nil) {
+			okGate = false
+		}
+	}
+	r.Check(okGate, "C15/R7", "node.executeOperation:write-back-only-for-reinit", "the round write-back is reached only when the stored operation is a reinit operation", c.Pos(fn.Pos()),
+		sprintf("%d tests of the stored operation's Type against reinit_dkg, %d SaveFSM calls; a save is reachable without one: any pending operation can be answered with the operation_processed_successfully event — nothing is posted, the operation is retired, and ExtraData is written into a round", len(isReinit), len(saves)))
+	okRound := len(saves) > 0 && len(loads) > 0
+	detail := ""
+	for _, call := range append(append([]ssa.CallInstruction{}, saves...), loads...) {
+		a := call.Common().Args
+		idx := len(a) - 2
+		p := npath(a[idx])
+		if !(stored(p) && strings.Contains(p, ".DKGIdentifier")) {
+			okRound, detail = false, callName(call)+" uses round "+trimPath(p)
+		}
+	}
+	r.Check(okRound, "C15/R7", "node.executeOperation:write-back-round", "the round loaded and saved by the write-back is the stored operation's round", c.Pos(fn.Pos()),
+		detail+": the submitted copy chooses which round's public polynomial is overwritten")
+}
+
+
+// c15AnswerSerialised: executeOperation is check-then-act (pool lookup, post, retirement) and is called from HTTP handlers
+// that run concurrently: the whole sequence runs under one mutex of the node service that is taken before the lookup and
+// released by a deferred Unlock, so two submissions of the same answer cannot both find the operation pending.
+func c15AnswerSerialised(c *Ctx) {
+	r := c.R
+	fn := c.Fn("C15/R4", pkgNode, "BaseNodeService", "executeOperation")
+	if fn == nil {
+		return
+	}
+	var locks []ssa.Instruction
+	lockPath := ""
+	for _, call := range ssax.Calls(fn, false, func(ci ssa.CallInstruction) bool {
+		id := ssax.FuncID(ssax.CalleeObj(ci))
+		return id == "sync.(Mutex).Lock"
+	}) {
+		if _, isDefer := call.(*ssa.Defer); isDefer {
+			continue
+		}
+		p := npath(call.Common().Args[0])
+		if strings.HasPrefix(p, "&s.") || strings.HasPrefix(p, "s.") {
+			locks = append(locks, call.(ssa.Instruction))
+			lockPath = p
+		}
+	}
+	deferred := false
+	for _, call := range ssax.Calls(fn, false, func(ci ssa.CallInstruction) bool {
+		_, isDefer := ci.(*ssa.Defer)
+		return isDefer && ssax.FuncID(ssax.CalleeObj(ci)) == "sync.(Mutex).Unlock"
+	}) {
+		if npath(call.Common().Args[0]) == lockPath {
+			deferred = true
+		}
+	}
+	gets := ssax.Calls(fn, false, func(ci ssa.CallInstruction) bool { o := ssax.CalleeObj(ci); return o != nil && o.Name() == "GetOperationByID" })
+	ok := len(locks) == 1 && deferred && len(gets) == 1 && !ssax.ReachableAvoiding(fn, gets[0].(ssa.Instruction), nil, locks)
+	r.Check(ok, "C15/R4", "node.executeOperation:answer-serialised", "lookup, post and retirement of an answer run under one mutex of the node service (deferred unlock)", c.Pos(fn.Pos()),
+		sprintf("%d Lock calls on a mutex of the service before the pool lookup, deferred Unlock=%v: two concurrent submissions of the same answer both find the operation pending and both post it (the second fails only at DeleteOperation, after its messages are on the board)", len(locks), deferred))
 }
